@@ -17,6 +17,10 @@ SEEDS = ["2016-10-06", "20161006", "2016-280", "2016280", "2016-W40-4", "2016W40
          "2007-03-01T13:00:00Z/PT0S", "P0D/2008-05-11T15:30:00Z", "2007-03-01T13:00:00/P0Y0M0DT0H0M0S", "PT0S", "P0W", "P0Y",
          "2007-03-01T13:00:00Z/PT1S", "2007-03-01/2007-03-01", "2016-10-06T00:00:00+00:00/PT0.0S",
          "2016-10-06 12:34:56", "1975-05-21 22:00:00", "2016-13-01", "2016-02-30", "2016-W54", "2016-367", "now",
+         "2016-10-06T12:34:56.9999999999", "2016-10-06T12:34:56.1234567891234Z", "2016-10-06T12:34:56,00000000019+05:30",
+         "2016-10-06T12:34:56.429496729599", "2016-10-06T12:34:56-00:30", "2016-10-06T12:34:56-0030", "2016-10-06T12:34:56+00:30",
+         "2007-03-01T13:00:00Z//2008-05-11T15:30:00Z", "2007-03-01T13:00:00Z/PT1H/2008-05-11T15:30:00Z",
+         "2007-03-01T13:00:00Z/x/2008-05-11T15:30:00Z", "2007-03-01T13:00:00Z/2008-05-11T15:30:00Z/",
          "2016:10:06 12:34:56", "2016/10/06", "0000/13/99 12:30", "0000-01-01 00:00:00", "2016/00/10 01:02", "2016:02:30 12:34:56",
          "0000:10:06 12:34", "2016/10/06 12:34:56", "2016:10", "2016/10", "201610", "2016:10 12:34", "2016/10 1:2:3.5", "12:34"]
 RANDOM_EXTRA = ["", " ", "T", "P", "PT", "-", "+", "::", "2016-10-06T", "2016-10-06T12:34:56+", "٢٠١٦-١٠-٠٦", "２０１６-10-06", "2016‐10‐06",
